@@ -29,16 +29,16 @@ from pipeline import close
 from gotranx import sympytools
 
 
-def chain_text(depth, rng, reverse_names=False):
+def chain_text(depth, rng, reverse_names=False, mid=True, ops=None):
     names = [f"i{j:02d}" for j in range(depth)]
     if reverse_names:
         names = names[::-1]
-    rng_ops = ["+ 1", "* 0.5", "- y", "+ p*x"]
+    rng_ops = ops or ["+ 1", "* 0.5", "- y", "+ p*x"]
     lines = [f"{names[0]} = x*p + 1"]
     for a_, b_ in zip(names, names[1:]):
         lines.append(f"{b_} = {a_} {rng.choice(rng_ops)}")
     rng.shuffle(lines)
-    return "states(x=1, y=2)\nparameters(p=0.5)\n" + "\n".join(lines) + f"\ndx_dt = -{names[-1]} + y\ndy_dt = {names[depth // 2]} - y*x\n"
+    return "states(x=1, y=2)\nparameters(p=0.5)\n" + "\n".join(lines) + f"\ndx_dt = -{names[-1]} + y\ndy_dt = {names[depth // 2 if mid else 0]} - y*x\n"
 
 
 def skewed_text():
@@ -206,6 +206,12 @@ def main(argv=None):
             core.guarded(rep, text, check_text, rep, drv, rng, text)
             rep.case(key=text, nontrivial=d > 1)
             rep.count("chain_depths_checked")
+    # a chain far deeper than the interpreter's default recursion limit (the expanded expressions stay small)
+    for d in ([1300] if a.tier == "quick" else [1300, 3000]):
+        text = chain_text(d, rng, False, mid=False, ops=["+ 1", "- y", "+ p*x"])    # sums only: the mirror's symbolic derivative stays linear in the depth
+        core.guarded(rep, text, check_text, rep, drv, rng, text)
+        rep.case(key=text, nontrivial=True)
+        rep.count("chain_depths_checked")
     text = skewed_text()
     core.guarded(rep, text, check_text, rep, drv, rng, text)
     rep.case(key=text, nontrivial=True)
@@ -229,7 +235,7 @@ def main(argv=None):
     drv.close()
     return rep.finish(
         level="proof",
-        rule="chains of depth 1..33 (quick) / 1..45 (thorough) with names in and against dependency order, a model with dependency paths "
+        rule="chains of depth 1..33 (quick) / 1..45 (thorough) with names in and against dependency order, a chain of depth 1300 (3000) that hangs off one derivative, a model with dependency paths "
              "of different lengths, random models with 2-8 intermediates in chain / diamond / fan-in / random shapes, conditionals 15%; two "
              "points each; non-trivial = more than one intermediate level",
         trusted_base=["Coq 8.16.1 kernel", "Coquelicot and the standard library reals (classical) for D_sound", "extraction + ocaml/driver.ml",
